@@ -18,11 +18,17 @@ func parseCacheControl(ccHeader string) (cacheControl, error) {
 	// Parse the Cache-Control header for max-age directive
 	for directive := range strings.SplitSeq(ccHeader, ",") {
 		directive = strings.TrimSpace(directive)
-		if directive == "no-cache" || directive == "no-store" {
+
+		// Directive names are case-insensitive; an argument may be given as a token or a quoted-string.
+		name, arg, _ := strings.Cut(directive, "=")
+		name = strings.ToLower(strings.TrimSpace(name))
+		arg = strings.Trim(strings.TrimSpace(arg), "\"")
+
+		if name == "no-cache" || name == "no-store" || name == "private" {
 			cc.noCache = true
-		} else if after, ok := strings.CutPrefix(directive, "max-age="); ok {
+		} else if name == "max-age" {
 			// max-age directive specifies the maximum amount of time a response is considered fresh in seconds.
-			maxAge, err := strconv.ParseInt(after, 10, 64)
+			maxAge, err := strconv.ParseInt(arg, 10, 64)
 			if err != nil {
 				return cacheControl{}, fmt.Errorf("%w: %v", ErrParseMaxAge, err)
 			}
